@@ -191,6 +191,11 @@ def run(ctx):
     content = []
     for (b, a, pol) in q.branches(init, lambda a: any(x.k == 'DeclRefExpr' and x.declid == recl for x in a.walk())):
         flds = {x.decl['n'] for x in a.walk() if x.k == 'MemberExpr' and x.decl and x.decl.get('k') == 'Field'}
+        # a predicate method of the record counts by the fields its body reads (Prec::valid() ...)
+        for x in a.walk():
+            if x.is_call and x.callee_qp and x.obj is not None and any(y.k == 'DeclRefExpr' and y.declid == recl for y in x.obj.walk()):
+                for g in prog.fns(x.callee_qp):
+                    flds |= {y.decl['n'] for y in g.all_nodes() if y.k == 'MemberExpr' and y.decl and y.decl.get('k') == 'Field'}
         if flds & {'_offset', '_size'}:
             content.append((b, a, pol, flds))
     dropped = None
